@@ -4,7 +4,7 @@ from __future__ import annotations
 import ast
 
 from ..core import Ctx
-from ..match import arg, call_name, calls, facts_at, local_defs, resolve, single_def
+from ..match import arg, call_name, calls, facts_at, local_defs, resolve, single_def, unreachable_assuming
 from ..model import AnalysisError, FuncInfo, chain, const_value, enclosing_stmt, norm, strip_cast, walk_no_nested
 
 LEVEL = "other"
@@ -582,8 +582,67 @@ def rule_auth_failure_inert(ctx: Ctx) -> None:
     ctx.floor("auth-failure-inert", n, 3)
 
 
+def rule_unkeyed_circuit(ctx: Ctx) -> None:
+    """A circuit that has no verified hop yet has no keys: `decrypt_cell(cell, BACKWARD, *circuit.hops)` over zero hops returns
+    the cell unchanged, so a non-plaintext cell would be accepted without any key (defect fixed by 3cadd29)."""
+    ic = ctx.repo.method("PythonCryptoEndpoint", "incoming_crypto", "ipv8/messaging/anonymization/crypto.py")
+    cfg = ctx.cfg(ic)
+
+    def hops_of_own_circuit(e) -> bool:
+        e = resolve(ic, e)
+        if not (isinstance(e, ast.Attribute) and e.attr in ("hops", "_hops")):
+            return False
+        base = resolve(ic, e.value)
+        return isinstance(base, ast.Call) and chain(base.func) in ("self.circuits.get",) or \
+            (isinstance(base, ast.Subscript) and chain(base.value) == "self.circuits")
+
+    def nonempty_fact(f) -> bool:
+        if f.op == "truthy" and f.pos:
+            if hops_of_own_circuit(f.left):
+                return True
+            l = resolve(ic, f.left)
+            return isinstance(l, ast.Call) and call_name(l) == "len" and l.args and hops_of_own_circuit(l.args[0])
+        def is_len(x):
+            x = resolve(ic, x)
+            return isinstance(x, ast.Call) and call_name(x) == "len" and x.args and hops_of_own_circuit(x.args[0])
+        if f.op == "lt" and f.pos and const_value(f.left) == 0 and is_len(f.right):
+            return True                                   # 0 < len(hops)
+        if f.op == "lt" and not f.pos and is_len(f.left) and const_value(f.right) == 1:
+            return True                                   # not len(hops) < 1
+        if f.op == "eq" and not f.pos and ((is_len(f.left) and const_value(f.right) == 0) or (is_len(f.right) and const_value(f.left) == 0)):
+            return True
+        return False
+
+    def plaintext_fact(f) -> bool:
+        return f.op == "truthy" and f.pos and (chain(resolve(ic, f.left)) or "").endswith(".plaintext")
+
+    sites = []
+    for c in calls(ic):
+        if call_name(c) != "decrypt_cell":
+            continue
+        for a in c.args:
+            if isinstance(a, ast.Starred) and hops_of_own_circuit(a.value):
+                sites.append(c)
+    ctx.anchor(sites, "decrypt_cell(cell, BACKWARD, *circuit.hops) in incoming_crypto")
+    def own_circuit_absent(f) -> bool:
+        l = resolve(ic, f.left)
+        is_own = isinstance(l, ast.Call) and chain(l.func) == "self.circuits.get"
+        if not is_own:
+            return False
+        return (f.op == "truthy" and not f.pos) or (f.op == "is" and const_value(f.right) is None and f.pos)
+
+    for c in sites:
+        fs = facts_at(cfg, c)
+        # assume: the circuit exists, has no hop, and the cell is not plaintext -> the layer removal must be unreachable
+        ok = unreachable_assuming(cfg, c, lambda f: nonempty_fact(f) or plaintext_fact(f) or own_circuit_absent(f))
+        ctx.check(ok, "keys-required", ic, c, "layers of an own circuit are removed only when the circuit has at least one keyed hop (or the cell is the plaintext created)",
+                  "an own circuit without verified hops has no keys: removing zero layers accepts any non-plaintext cell naming its id, so a third party "
+                  "that knows the circuit id has data delivered as if it came through the circuit", [str(f) for f in fs])
+
+
 def run(ctx: Ctx) -> None:
     rule_authenticated_accounting(ctx)
+    rule_unkeyed_circuit(ctx)
     rule_destroy(ctx)
     rule_no_overwrite(ctx)
     rule_data_origin(ctx)
@@ -595,6 +654,12 @@ def run(ctx: Ctx) -> None:
 
 
 WITNESSES = [
+    {"name": "cells accepted for a circuit without keys (defect fixed by 3cadd29)", "file": "ipv8/messaging/anonymization/crypto.py", "rule": "keys-required",
+     "old": """        if circuit and not circuit.hops and not cell.plaintext:
+            self.logger.debug("Got encrypted cell for circuit %d, which has no session keys yet", circuit_id)
+            return None
+
+""", "new": ""},
     {"name": "pre-fix: join_circuit overwrites live id", "file": TC, "rule": "no-overwrite-live-id",
      "old": "        if circuit_id in self.circuits or circuit_id in self.relay_from_to or circuit_id in self.exit_sockets:\n            self.logger.warning(\"Refusing to join circuit %d: circuit id is already in use\", circuit_id)\n            return\n",
      "new": ""},
